@@ -3,6 +3,7 @@
 Abstract syntax (plain tuples, JSON-able after tuple->list conversion, see `thaw`):
 
   atom   ::= ("int", txt) | ("float", txt) | ("const", "None"|"True"|"False") | ("var", dotted)
+           | ("raw", literal_text)     printed verbatim in every layout (strings with an escaped quote)
            | ("str", content) | ("trans", content) | ("tpl", (piece, ...))
   piece  ::= ("text", t) | ("var", leaf) | ("tag", source, rendered) | ("comment", t)
   leaf   ::= ("leaf", atom, (filt, ...))            filt ::= (name, None | atom)
@@ -138,7 +139,7 @@ def _quote(content, q):
 def pr_atom(atom, lay, q=None):
     q = q or lay.quote
     k = atom[0]
-    if k in ("int", "float", "const", "var"):
+    if k in ("int", "float", "const", "var", "raw"):
         return atom[1]
     if k == "str":
         return _quote(atom[1], q)
@@ -552,6 +553,8 @@ def atoms_full(marker=""):
         S("],}:=|*/ ...[{(" + m),
         S("it's" + m),
         S(""),
+        ("raw", '"a\\"b  c' + m + '"'),
+        ("raw", "'it\\'s, " + m + "'"),
         V("x"),
         V("d"),
         V("s"),
